@@ -257,15 +257,26 @@ Definition node (s : sim) (path : list str) : sim :=
   {| cfgs := cfgs s;
      modules := modules s ++ [(path, fold_left (fun ps c => capture_for c path ps) (cfgs s) [])] |}.
 
-(* create the modules in order, including the configuration once [inc_at] of them exist *)
-Fixpoint build (s : sim) (c : cfg) (inc_at : nat) (included : bool) (paths : list (list str)) : sim :=
+(* Several configurations, each to be included once [fst] of the modules exist: the modules are created
+   in order; before module i the pending configurations scheduled for i are included (in their order),
+   what is left is included after the last module. *)
+Definition at_now (i : nat) (x : nat * cfg) : bool := Nat.eqb (fst x) i.
+Definition include_all (s : sim) (l : list (nat * cfg)) : sim := fold_left (fun s x => include_cfg s (snd x)) l s.
+Fixpoint build (s : sim) (pending : list (nat * cfg)) (i : nat) (paths : list (list str)) : sim :=
   match paths with
-  | [] => if included then s else include_cfg s c
-  | p :: r => match inc_at, included with
-              | O, false => build (node (include_cfg s c) p) c O true r
-              | _, _ => build (node s p) c (pred inc_at) included r
-              end
+  | [] => include_all s pending
+  | p :: r => build (node (include_all s (filter (at_now i) pending)) p)
+                    (filter (fun x => negb (at_now i x)) pending) (S i) r
   end.
+(* the order in which that schedule issues the includes, for [k] modules starting with number [i] *)
+Fixpoint time_order (pending : list (nat * cfg)) (i k : nat) : list (nat * cfg) :=
+  match k with
+  | O => pending
+  | S k' => filter (at_now i) pending ++ time_order (filter (fun x => negb (at_now i x)) pending) (S i) k'
+  end.
+(* Cfg::capture_for of several configurations in turn (first set wins) *)
+Definition capture_all (cs : list cfg) (path : list str) : store :=
+  fold_left (fun st c => capture_for c path st) cs [].
 
 (* ---------------- mod.rs: typed access ---------------- *)
 Inductive terr := TInvalidInput | TOther.
@@ -382,7 +393,7 @@ Definition dump (tag : N) (ps : store) : list N :=
   tag :: N.of_nat (length ps) :: flat_map (fun e => enc_str (fst e) ++ enc_entry (snd e)) (sort_props ps).
 
 (* ---------------- wire format ---------------- *)
-Inductive op := OEntry (k : str) (v : N) | OModule (p : str) | OLate (l : late).
+Inductive op := OEntry (k : str) (v : N) | OModule (p : str) | OLate (l : late) | OGroup (at_ : N).
 
 Definition take1 (l : list N) : N * list N := match l with [] => (0, []) | x :: r => (x, r) end.
 
@@ -396,6 +407,7 @@ Definition dec_op (l : list N) : option (op * list N) :=
               let '(v, r3) := take1 r2 in Some (OLate (LTyped (TWrite m n t v)), r3)
   | 5 :: r => let '(m, r0) := take1 r in let '(n, r1) := take_lp r0 in Some (OLate (LTyped (TRaw m n)), r1)
   | 6 :: r => let '(k, r1) := take_lp r in let '(v, r2) := take1 r1 in Some (OLate (LInclude k v), r2)
+  | 7 :: r => let '(a, r1) := take1 r in Some (OGroup a, r1)
   | _ => None
   end.
 
@@ -423,6 +435,15 @@ Fixpoint nodupb (l : list str) : bool :=
 
 Definition entries_of (ops : list op) : list (str * N) :=
   flat_map (fun o => match o with OEntry k v => [(k, v)] | _ => [] end) ops.
+(* the entries are partitioned into separate includes: `7 at` closes the current one and opens the next,
+   to be included once [at] modules exist (the first one uses the script's header) *)
+Fixpoint groups_of (ops : list op) (cur_at : N) (cur : list (str * N)) : list (N * list (str * N)) :=
+  match ops with
+  | [] => [(cur_at, cur)]
+  | OEntry k v :: r => groups_of r cur_at (cur ++ [(k, v)])
+  | OGroup a :: r => (cur_at, cur) :: groups_of r a []
+  | _ :: r => groups_of r cur_at cur
+  end.
 Definition paths_of (ops : list op) : list str :=
   flat_map (fun o => match o with OModule p => [p] | _ => [] end) ops.
 Definition lates_of (ops : list op) : list late :=
@@ -454,15 +475,15 @@ Definition run (input : list N) : list N :=
       let ops := decode_all dec_op r in
       if negb (valid_script ops) then [7]
       else
-        let entries := entries_of ops in
+        let groups := groups_of ops inc_at [] in
         let paths := map split_dot (paths_of ops) in
         let lates := lates_of ops in
-        if yaml_ok entries then
-          let c := cfg_new entries in
-          let s := build sim_new c (N.to_nat (N.min inc_at (N.of_nat (length paths)))) false paths in
-          [100; 0] ++ level_out (map (fun p => (p, capture_for_into c p)) paths) lates ++
-          [200] ++ level_out (modules s) lates
-        else
-          let none := map (fun p => (p, @nil (str * entry))) paths in
-          [100; 5] ++ level_out none lates ++ [200] ++ level_out none lates
+        let n := N.of_nat (length paths) in
+        (* include_cfg ignores a text the YAML parser rejects *)
+        let sched := flat_map (fun g => if yaml_ok (snd g) then [(N.to_nat (N.min (fst g) n), cfg_new (snd g))] else []) groups in
+        let flags := map (fun g => if yaml_ok (snd g) then 0 else 5) groups in
+        let cs := map snd (time_order sched 0 (length paths)) in
+        let s := build sim_new sched 0 paths in
+        [100; N.of_nat (length groups)] ++ flags ++ level_out (map (fun p => (p, capture_all cs p)) paths) lates ++
+        [200] ++ level_out (modules s) lates
   end.
